@@ -126,7 +126,7 @@ fn check_type<T: Jetty>(tname: &str, ctx: &Ctx, shard: usize, nshards: usize, ti
         // wide bands: far from the moderate regions, as long as every contributing term stays
         // inside the float range (cases where one does not are skipped and counted)
         for (ri, (rname, rfun)) in ndv_core::funcs::wide_regions(*f, T::IS_F32).iter().enumerate() {
-            for rep in 0..ctx.n(12, 6000) {
+            for rep in 0..ctx.n(24, 6000) {
                 idx += 1;
                 if idx % nshards as u64 != shard as u64 {
                     continue;
@@ -135,13 +135,23 @@ fn check_type<T: Jetty>(tname: &str, ctx: &Ctx, shard: usize, nshards: usize, ti
                 let shape = T::shape(dynd(&mut rng));
                 let b = Basis::new(&shape);
                 let x0 = round_to(rfun(&mut rng), T::IS_F32);
-                let style = (rep as usize) % STYLES.len();
+                // every third case carries first-order parts only (what the drivers seed): higher parts would mask
+                // a damaged high-order coefficient behind the much larger f' * v3 terms
+                let style = if rep % 3 == 1 { 4 } else { (rep as usize) % STYLES.len() };
                 let slots = gen_slots(&mut rng, &b, x0, style, T::IS_F32);
                 let xin = Tr::exact(Jet::from_slots(&b, &slots), &b);
                 let m = xin.func(*f, &b);
                 let (want, mag) = m.slots(&b);
                 let (lim, floor) = if T::IS_F32 { (1e36, 1e-36) } else { (1e290, 1e-290) };
-                if want.iter().chain(mag.iter()).any(|v| !v.is_finite() || v.abs() > lim) {
+                // head-room for the products the chain rule forms on the way (coefficient times up to
+                // `order` parts, in any order)
+                let pmax = slots[1..].iter().fold(1.0f64, |a, v| a.max(v.abs()));
+                let gw = taylor::taylor(*f, x0, b.max_deg + 1);
+                let coeff_out = (1..=b.max_deg).any(|k| {
+                    let c = gw[k].abs() * (1..=k).product::<usize>() as f64 * pmax.powi(k as i32);
+                    !c.is_finite() || c > lim
+                });
+                if coeff_out || want.iter().chain(mag.iter()).any(|v| !v.is_finite() || v.abs() > lim) {
                     acc.count("wide_cases_skipped_term_outside_float_range", 1);
                     continue;
                 }
